@@ -320,8 +320,11 @@ enum Cause {
     StartFail(FailHow),
     HandlerPanic(u32),
     StopPanic,
+    FinishPanic,
     Cancel(u32),
     TimeoutFail(u32),
+    /// a non-fatal handler timeout and a repeating timer whose tick handler exceeds it
+    TimeoutCarryOn(u32),
 }
 
 pub fn c02(big: bool) -> BoxedStrategy<Case> {
@@ -347,7 +350,7 @@ pub fn c02(big: bool) -> BoxedStrategy<Case> {
         .prop_map(|(mut spawn, cause, grants, clients, schedule)| {
             let mut faults = vec![];
             match cause {
-                Cause::None => {}
+                Cause::None | Cause::FinishPanic | Cause::TimeoutCarryOn(_) => {}
                 Cause::StartFail(how) => faults.push(Fault::StartFail { actor: 0, inc: 0, how }),
                 Cause::HandlerPanic(kth) => faults.push(Fault::HandlerPanic { actor: 0, kth }),
                 Cause::StopPanic => faults.push(Fault::StopPanic { actor: 0 }),
@@ -517,13 +520,15 @@ pub fn c04(big: bool) -> BoxedStrategy<Case> {
             (Just(spawn), Just(stopped), grants(n, owning, 3), vec(vec(op.clone(), 3..=max_ops), n..=n), schedule(if big { 96 } else { 48 }))
         })
         .prop_map(|(spawn, (stopped, start_fail), grants, clients, schedule)| {
+            // a stream-attached actor whose `finished` panics (one in four of them)
+            let finish_panic = matches!(spawn, SpawnSpec::Stream { .. }) && schedule.len() % 4 == 1;
             let mut c = Case {
                 family: Family::C04,
                 actors: one_actor(spawn, Behavior { stopped: stopped.clone(), finished: stopped, start_fail, ..Default::default() }),
                 default_beh: vec![],
                 grants,
                 clients,
-                faults: vec![],
+                faults: if finish_panic { vec![Fault::FinishPanic { actor: 0 }] } else { vec![] },
                 schedule,
                 settle: 0,
             };
@@ -612,14 +617,22 @@ pub fn c12(big: bool) -> BoxedStrategy<Case> {
         2 => vec((prop_oneof![Just(TimerKind::Interval), Just(TimerKind::IntervalWith)], 1u32..=8).prop_map(|(kind, ticks)| Step::AddTimer(TimerSpec { kind, ticks, work: vec![] })), 1..=2),
     ];
     let base_op = mixed_ops(base, vec![(10, (h(), work(2, 6), 1u8..4).prop_map(|(h, work, extra)| ClientOp::SendRepoll { h, work, extra }).boxed())]);
-    (spawn, timers, 1usize..=4, proptest::bool::weighted(0.04))
+    // 0 = nothing special, 1 = flood of an unbounded mailbox, >= 3000 = one message that takes that long
+    let special = prop_oneof![90 => Just(0u32), 4 => Just(1u32), 6 => 3001u32..9000];
+    (spawn, timers, 1usize..=4, special)
         .prop_flat_map(move |(spawn, started, n, flood)| {
             let owning = spawn.owning();
             let base_op = base_op.clone();
             let g = vec(vec(prop_oneof![4 => Just(HKind::Addr), 3 => Just(HKind::Sender), 2 => Just(HKind::WeakSender), 1 => Just(HKind::Caller), 1 => Just(HKind::WeakAddr)], 1..=3), n);
             (Just(spawn), Just(started), g, Just((owning, flood)), vec(vec(base_op, 3..=max_ops), n..=n), schedule(if big { 96 } else { 48 }))
         })
-        .prop_map(|(mut spawn, started, per, (owning, flood), mut clients, schedule)| {
+        .prop_map(|(mut spawn, mut started, per, (owning, special), mut clients, schedule)| {
+            let flood = special == 1;
+            if special >= 3000 {
+                // a congestion that lasts seconds (virtual time is free): blocked sends stay blocked
+                clients[0].insert(0, ClientOp::Send { h: 0, work: vec![Step::Sleep(special)] });
+                started.clear();
+            }
             let mut grants = vec![];
             if owning {
                 grants.push(Grant { client: 0, actor: 0, kind: HKind::Owning });
@@ -727,9 +740,13 @@ fn any_timer(max_ticks: u32) -> BoxedStrategy<TimerSpec> {
 
 pub fn c10(big: bool) -> BoxedStrategy<Case> {
     let max_ops = if big { 12 } else { 7 };
-    let spawn = plain_spawn(false);
+    let spawn = prop_oneof![
+        5 => plain_spawn(false),
+        // restart requests to a non-restartable actor are ignored - its timers included
+        1 => (mailbox(), any::<bool>()).prop_map(|(mailbox, owning)| SpawnSpec::Build { mailbox, strategy: RStrat::NonRestartable, timeout: None, fail_on_timeout: false, owning }),
+    ];
     // mostly waiting clients: the actor is idle except for its timers
-    let base = OpWeights { send: 6, call: 6, ping: 2, convert: 2, yield_: 4, sleep: 60, give: 0, drop: 6, stop: 5, halt: 2, try_stop: 2, max_sleep: 40, ..MSG_WEIGHTS };
+    let base = OpWeights { send: 6, call: 6, ping: 2, convert: 2, yield_: 4, sleep: 60, give: 0, drop: 6, stop: 5, halt: 2, try_stop: 2, restart: 4, max_sleep: 40, ..MSG_WEIGHTS };
     let timer_in_handler = (any_timer(50), h()).prop_map(|(t, h)| ClientOp::Call { h, work: vec![Step::AddTimer(t)] });
     // a long congestion: one very slow message (virtual time is free)
     let congestion = (h(), 1000u32..2500).prop_map(|(h, d)| ClientOp::Send { h, work: vec![Step::Sleep(d)] });
@@ -741,17 +758,24 @@ pub fn c10(big: bool) -> BoxedStrategy<Case> {
         1 => Just(Cause::StopPanic),
         2 => (1u32..12).prop_map(Cause::Cancel),
         2 => (1u32..6).prop_map(Cause::TimeoutFail),
+        2 => (2u32..7).prop_map(Cause::TimeoutCarryOn),
     ];
     (spawn, vec(any_timer(50).prop_map(Step::AddTimer), 0..=4), 1usize..=2, cause)
         .prop_flat_map(move |(spawn, started, n, cause)| {
             let owning = spawn.owning();
             (Just(spawn), Just((started, cause)), grants(n, owning, 1), vec(vec(op.clone(), 1..=max_ops), n..=n), schedule(32))
         })
-        .prop_map(|(mut spawn, (started, cause), grants, clients, schedule)| {
+        .prop_map(|(mut spawn, (mut started, cause), grants, clients, schedule)| {
             // termination "by any cause": failures too
             let mut faults = vec![];
             match cause {
-                Cause::None => {}
+                Cause::None | Cause::FinishPanic => {}
+                Cause::TimeoutCarryOn(t) => {
+                    let (mailbox, owning) = (spawn.mailbox(), spawn.owning());
+                    spawn = SpawnSpec::Build { mailbox, strategy: spawn.strategy(), timeout: Some(t), fail_on_timeout: false, owning };
+                    let kind = if schedule.len() % 2 == 0 { TimerKind::Interval } else { TimerKind::IntervalWith };
+                    started.insert(0, Step::AddTimer(TimerSpec { kind, ticks: 3 * t + 4, work: vec![Step::Sleep(t + 2)] }));
+                }
                 Cause::StartFail(how) => faults.push(Fault::StartFail { actor: 0, inc: 0, how }),
                 Cause::HandlerPanic(kth) => faults.push(Fault::HandlerPanic { actor: 0, kth }),
                 Cause::StopPanic => faults.push(Fault::StopPanic { actor: 0 }),
@@ -772,6 +796,16 @@ pub fn c10(big: bool) -> BoxedStrategy<Case> {
                 settle: 0,
             };
             avoid_exact_timeout(&mut c);
+            if c.actors[0].spawn.strategy() != RStrat::NonRestartable {
+                // restarts of restartable actors (timers aborted and re-registered) belong to C07
+                for cl in &mut c.clients {
+                    for op in cl.iter_mut() {
+                        if matches!(op, ClientOp::Restart { .. }) {
+                            *op = ClientOp::Yield;
+                        }
+                    }
+                }
+            }
             // at most one very slow message per case
             let mut long_seen = false;
             for cl in &mut c.clients {
@@ -832,6 +866,8 @@ pub fn c11(big: bool) -> BoxedStrategy<Case> {
                 3 => 0..=t / 2,
                 2 => (t + 2)..=(3 * t + 5),
                 1 => Just(0u32),
+                // without a configured limit even a very long invocation completes
+                1 => if timeout.is_none() { (1001u32..=2600).boxed() } else { (0..=t / 2).boxed() },
             ];
             let work = (dur, 1usize..=3, any::<bool>()).prop_map(|(d, parts, y)| {
                 let mut w = vec![];
@@ -858,7 +894,7 @@ pub fn c11(big: bool) -> BoxedStrategy<Case> {
             (Just((timeout, fail, mb, owning)), grants(n, owning, 1), vec(vec(op, 2..=max_ops), n..=n), schedule(32))
         })
         .prop_map(|((timeout, fail_on_timeout, (mailbox, strategy), owning), grants, clients, schedule)| {
-            let spawn = SpawnSpec::Build { mailbox, strategy, timeout, fail_on_timeout: fail_on_timeout && timeout.is_some(), owning };
+            let spawn = SpawnSpec::Build { mailbox, strategy, timeout, fail_on_timeout, owning };
             let mut c = Case {
                 family: Family::C11,
                 actors: one_actor(spawn, Behavior::default()),
@@ -922,18 +958,26 @@ pub fn c17(big: bool) -> BoxedStrategy<Case> {
         1 => prop_oneof![Just(FailHow::Err), Just(FailHow::Panic)].prop_map(Cause::StartFail),
         2 => (0u32..6).prop_map(Cause::HandlerPanic),
         1 => Just(Cause::StopPanic),
+        1 => Just(Cause::FinishPanic),
         1 => (0u32..10).prop_map(Cause::Cancel),
     ];
     let base = OpWeights { send: 22, call: 22, ping: 4, convert: 10, yield_: 4, sleep: 3, give: 2, drop: 3, stop: 6, halt: 1, await_: 2, join: 12, consume: 4, detach: 3, max_sleep: 4, ..MSG_WEIGHTS };
     let op = mixed_ops(base, vec![(5, msg_op(1, 1, ctx_work(3, 3, 0))), (3, h().prop_map(|h| ClientOp::JoinStash { h }).boxed()), (3, h().prop_map(|h| ClientOp::JoinDiscard { h }).boxed())]);
     (spawn, cause, 1usize..=3, slow_callback())
         .prop_flat_map(move |(spawn, cause, n, stopped)| (Just(spawn), Just((cause, stopped)), grants(n, true, 1), vec(vec(op.clone(), 3..=max_ops), n..=n), schedule(if big { 96 } else { 48 })))
-        .prop_map(|(spawn, (cause, stopped), grants, clients, schedule)| {
+        .prop_map(|(mut spawn, (cause, stopped), grants, clients, schedule)| {
             let mut faults = vec![];
             match cause {
                 Cause::StartFail(how) => faults.push(Fault::StartFail { actor: 0, inc: 0, how }),
                 Cause::HandlerPanic(kth) => faults.push(Fault::HandlerPanic { actor: 0, kth }),
                 Cause::StopPanic => faults.push(Fault::StopPanic { actor: 0 }),
+                Cause::FinishPanic => {
+                    // only stream-attached actors have a `finished` callback
+                    if !matches!(spawn, SpawnSpec::Stream { .. }) {
+                        spawn = SpawnSpec::Stream { builder: spawn.mailbox_opt(), owning: true };
+                    }
+                    faults.push(Fault::FinishPanic { actor: 0 });
+                }
                 Cause::Cancel(j) => faults.push(Fault::CancelActor { actor: 0, before_poll: j }),
                 _ => {}
             }
@@ -1203,6 +1247,7 @@ pub fn c06(big: bool) -> BoxedStrategy<Case> {
         1 => Just(SpawnSpec::SpawnOwning),
         4 => (mailbox(), any::<bool>()).prop_map(|(mailbox, owning)| SpawnSpec::Build { mailbox, strategy: RStrat::Default, timeout: None, fail_on_timeout: false, owning }),
         2 => Just(SpawnSpec::Register { builder: None }),
+        2 => stream_spawn(),
     ];
     let reg = prop_oneof![Just(ChildReg::Unit), Just(ChildReg::Msg0)];
     let kids = vec((reg, proptest::bool::weighted(0.3)), 0..=3);
@@ -1211,7 +1256,16 @@ pub fn c06(big: bool) -> BoxedStrategy<Case> {
         let work = vec![Step::CallPeer];
         if call { ClientOp::Call { h, work } } else { ClientOp::Send { h, work } }
     });
-    let op = mixed_ops(base, vec![(14, peer_call.boxed()), (8, reg_op(1, [3, 0, 0, 0, 0, 3, 2]))]);
+    let op = mixed_ops(
+        base,
+        vec![
+            (14, peer_call.boxed()),
+            (8, reg_op(1, [3, 0, 0, 0, 0, 3, 2])),
+            // only meaningful when T is stream-attached
+            (5, (any::<u8>(), 0u8..4).prop_map(|(stream, n)| ClientOp::Feed { stream, n }).boxed()),
+            (1, any::<u8>().prop_map(|stream| ClientOp::EndStream { stream }).boxed()),
+        ],
+    );
     (t_spawn, started_with_timers(2), kids, any::<bool>(), 1usize..=3)
         .prop_flat_map(move |(spawn, started, kids, bystander, n)| {
             (Just(spawn), Just(started), Just(kids), Just(bystander), vec(vec(op.clone(), 2..=max_ops), n..=n), vec(vec(grant_kind(1), 1..=2), n..=n), schedule(if big { 64 } else { 32 }))
@@ -1240,7 +1294,9 @@ pub fn c06(big: bool) -> BoxedStrategy<Case> {
                     grants.push(Grant { client: c, actor: b, kind: HKind::Caller });
                 }
             }
-            finalize(Case { family: Family::C06, actors, default_beh: vec![], grants, clients, faults: vec![], schedule, settle: 0 })
+            let mut c = Case { family: Family::C06, actors, default_beh: vec![], grants, clients, faults: vec![], schedule, settle: 0 };
+            sanitize(&mut c);
+            finalize(c)
         })
         .boxed()
 }
